@@ -895,7 +895,10 @@ std::string sqf::parser::preprocessor::impl_default::instance::parse_ppinstructi
             log(err::UnexpectedIfdef(fileinfo.to_diag_info()));
         }
         auto res = m_macros.find(static_cast<std::string>(line));
-        current_file_scope().conditions.push_back({ res != m_macros.end(), fileinfo, fileinfo });
+        // a conditional inside an inactive branch stays inactive, whatever its own condition says
+        bool parent_allow_write = current_file_scope().conditions.empty() || current_file_scope().conditions.back().allow_write;
+        bool condition = res != m_macros.end();
+        current_file_scope().conditions.push_back({ parent_allow_write && condition, fileinfo, fileinfo, parent_allow_write, condition });
         return "\n";
     }
     else if (inst == "IFNDEF")
@@ -905,7 +908,10 @@ std::string sqf::parser::preprocessor::impl_default::instance::parse_ppinstructi
             log(err::UnexpectedIfndef(fileinfo.to_diag_info()));
         }
         auto res = m_macros.find(static_cast<std::string>(line));
-        current_file_scope().conditions.push_back({ res == m_macros.end(), fileinfo, fileinfo });
+        // a conditional inside an inactive branch stays inactive, whatever its own condition says
+        bool parent_allow_write = current_file_scope().conditions.empty() || current_file_scope().conditions.back().allow_write;
+        bool condition = res == m_macros.end();
+        current_file_scope().conditions.push_back({ parent_allow_write && condition, fileinfo, fileinfo, parent_allow_write, condition });
         return "\n";
     }
     else if (inst == "ELSE")
@@ -916,7 +922,8 @@ std::string sqf::parser::preprocessor::impl_default::instance::parse_ppinstructi
             log(err::UnexpectedElse(fileinfo.to_diag_info()));
             return "";
         }
-        current_file_scope().conditions.back().allow_write = !current_file_scope().conditions.back().allow_write;
+        current_file_scope().conditions.back().condition = !current_file_scope().conditions.back().condition;
+        current_file_scope().conditions.back().allow_write = current_file_scope().conditions.back().parent_allow_write && current_file_scope().conditions.back().condition;
         return "\n";
     }
     else if (inst == "ENDIF")
